@@ -241,6 +241,12 @@ def wl_random(ctx, rng, case):
     import probables as P
 
     keys = gen.universe(rng, 6)
+    if case.index % 3 == 1:
+        # text beyond ASCII in several normalisation forms (decomposed, compatibility characters, conjoining jamo): a key is its code points
+        from ..ck import EXOTIC_TEXT
+
+        keys = keys[:4] + rng.sample(EXOTIC_TEXT, 3)
+        ctx.count("universes_with_text_in_several_normalisation_forms")
     if case.index % 10 == 4:
         keys = keys[:4] + ["L" * rng.choice([1000, 4096, 5000]), bytes(rng.getrandbits(8) for _ in range(rng.choice([1024, 3000])))]  # long keys
     case.desc = {"keys": keys}
